@@ -34,7 +34,7 @@ def attr_ty(a):
     if k in ("AGG_ENT", "AGG_ENTS"):
         return "aggr:ent:" + a.target.upper()
     return "aggr:" + {"AGG_INT": "int", "AGG_REAL": "real", "AGG_STR": "str", "AGG_SEL": "sel:SEL_M", "AGG_SELE": "sel:SEL_E",
-                      "AGG_AGG": "gen", "AGG_BOOL": "bool", "AGG_ENUM": "enum:RED.GREEN.BLUE", "AGG_BIN": "bin",
+                      "AGG_AGG": "gen", "AGG_AGG_ENT": "gen", "AGG_AGG_SEL": "gen", "AGG3_ENT": "gen", "AGG_BOOL": "bool", "AGG_ENUM": "enum:RED.GREEN.BLUE", "AGG_BIN": "bin",
                       "AGG_LOG": "log"}[k]
 
 
@@ -101,7 +101,9 @@ def val_tokens(v, inner):
         out += [("gap", cls), ")"]
         return out
     if t == "typed":
-        return [v[1], ("gap", "sel"), "(", ("gap", "sel")] + val_tokens(v[2], "sel") + [("gap", "sel"), ")"]
+        # inside an aggregate of aggregates a typed select value is part of the raw text too: the gaps stay of that class
+        cls = "agg2" if inner == "agg2" else "sel"
+        return [v[1], ("gap", cls), "(", ("gap", cls)] + val_tokens(v[2], cls) + [("gap", cls), ")"]
     raise ValueError(v)
 
 
@@ -702,6 +704,12 @@ WRONG_KIND = {   # attribute kind -> literals of *another* kind
 DOLLAR_JUNK = False
 DOLLAR_JUNK_LITS = ["$1", "$abc", "$ 1", "$$"]
 DOLLAR_JUNK_KINDS = ("INTEGER", "REAL", "NUMBER", "STRING", "BOOLEAN", "LOGICAL", "ENUM", "BINARY", "ENTITY")
+# the library's in-band null values as tokens (LONG_MAX, (double)FLT_MIN): not representable; the repaired readers report
+# them (fixes/C09-9, switches int/real/numberNullReported; set by checks/c03.py).  Attribute positions only: the model's
+# aggregate-element and select-leaf paths do not have the test yet.
+SENTINELS = False
+SENTINEL_LITS = {"INTEGER": ["9223372036854775807"], "REAL": ["1.1754943508222875E-38", "1.17549435082228750797E-38"],
+                 "NUMBER": ["1.1754943508222875E-38"]}
 AGG_ELEM_WRONG = {"AGG_INT": ["'x'", ".T.", "#REF"], "AGG_REAL": ["'x'", ".T."], "AGG_STR": ["5", ".T."],
                   "AGG_ENT": ["5", "'x'"], "AGG_ENTS": ["5", ".T."]}
 
@@ -774,7 +782,8 @@ def violations(rng, schema, pop, per_class=1, string_delims=False, missing_elem=
     someref = f"#{ids[0]}"
     # wrong literal kind
     for (ii, pi, ai, a) in positions(lambda a, v, i: a.kind in WRONG_KIND and v[0] != "null"):
-        lits = WRONG_KIND[a.kind] + (DOLLAR_JUNK_LITS if DOLLAR_JUNK and a.kind in DOLLAR_JUNK_KINDS else [])
+        lits = WRONG_KIND[a.kind] + (DOLLAR_JUNK_LITS if DOLLAR_JUNK and a.kind in DOLLAR_JUNK_KINDS else []) + \
+            (SENTINEL_LITS.get(a.kind, []) if SENTINELS else [])
         lit = rng.choice(lits).replace("#REF", someref)
         out.append(Violation("wrong_kind", pop[ii].id, replaced(ii, _set_val(pop[ii], pi, ai, ("tok", lit))),
                              where(pop[ii], pi, ai, a) + ":" + re.sub(r"[^A-Za-z0-9#'.()\"]", "", lit)[:6]))
